@@ -905,7 +905,7 @@ def gen_cases(ctx):
         yield 'digit', gen_digit(ctx, r)
     for _ in range(ctx.budget(350, 3000)):
         yield 'lookup', gen_lookup(ctx, r)
-    for _ in range(ctx.budget(350, 3000)):
+    for _ in range(ctx.budget(350, 6000)):
         yield 'match', gen_match(ctx, r)
     # every (mode, normalised, alpha, table kind) combination at least once, then random
     combos = list(itertools.product(['forward', 'mean', 'min', 'max', 'both'], [True, False], [True, False], ['auto', 'df']))
@@ -914,12 +914,12 @@ def gen_cases(ctx):
         c = gen_nblast(ctx, r, dict(fn='nblast', tkind=tk, ua=ua))
         c['cfg']['mode'], c['cfg']['normalized'] = mode, norm
         yield 'nblast', c
-    for _ in range(ctx.budget(450, 4500)):
+    for _ in range(ctx.budget(450, 10000)):
         yield 'nblast', gen_nblast(ctx, r)
     for _ in range(ctx.budget(60, 500)):
         qs, _ = gen_neurons(r, 1, 0, r.random() < 0.5, r.choice(['any', 'sq', 'one']), 12)
         yield 'selfhit', dict(table=dict(kind='auto') if r.random() < 0.4 else gen_table(r), use_alpha=r.random() < 0.5, cloud=qs[0])
-    for _ in range(ctx.budget(120, 1000)):
+    for _ in range(ctx.budget(120, 2000)):
         yield 'ext', gen_ext(ctx, r)
     for _ in range(ctx.budget(15, 120)):
         nq = r.randint(1, 3)
